@@ -1320,9 +1320,19 @@ class ContactHandler(Messenger, dbus.service.Object):
     def recv_xfer_refuse(self, transfer_id, reason):
         Messenger.recv_xfer_refuse(self, transfer_id, reason)
 
-        self.send_bundle_finished(transfer_id, 'refused with code %s', reason)
+        if transfer_id not in self._tx_map:
+            raise RejectError(messages.RejectMsg.Reason.UNEXPECTED)
+
         item = self._tx_map.pop(transfer_id)
-        self._tx_pend_ack.remove(item)
+        self.send_bundle_finished(
+            str(item.transfer_id),
+            item.ack_length,
+            'refused with code %s' % reason
+        )
+        # the transfer may be refused before it was fully sent
+        self._tx_pend_ack.discard(item)
+        if item in self._tx_pend_start:
+            self._tx_pend_start.remove(item)
 
         # interrupt in-progress
         if self._tx_tmp is not None and self._tx_tmp.transfer_id == transfer_id:
